@@ -296,6 +296,25 @@ def fnv_consts(fn, what):
     """(offset, multiplier, prime) of `hval = (OFF + (MULT * seed)) & MASK` and `<x>_prime = PRIME`"""
     off = mult = prime = maskname = None
     masked = None
+    # integer literals bound to a local name exactly once (`fnv_64_offset = 14695981039346656037`)
+    local, seen = {}, {}
+    for node in ast.walk(fn):
+        if isinstance(node, ast.Assign) and len(node.targets) == 1 and isinstance(node.targets[0], ast.Name):
+            nm = node.targets[0].id
+            seen[nm] = seen.get(nm, 0) + 1
+            if isinstance(node.value, ast.Constant) and isinstance(node.value.value, int) and not isinstance(node.value.value, bool):
+                local[nm] = node.value.value
+        elif isinstance(node, ast.AugAssign) and isinstance(node.target, ast.Name):
+            seen[node.target.id] = seen.get(node.target.id, 0) + 2
+    local = {k: v for k, v in local.items() if seen.get(k) == 1}
+
+    def lit(n):
+        if isinstance(n, ast.Constant) and isinstance(n.value, int) and not isinstance(n.value, bool):
+            return n.value
+        if isinstance(n, ast.Name) and n.id in local:
+            return local[n.id]
+        return None
+
     for node in ast.walk(fn):
         if isinstance(node, ast.Assign) and len(node.targets) == 1 and isinstance(node.targets[0], ast.Name):
             name = node.targets[0].id
@@ -310,12 +329,11 @@ def fnv_consts(fn, what):
                     masked = False
                     inner = node.value
                 if isinstance(inner, ast.BinOp) and isinstance(inner.op, ast.Add):
-                    if isinstance(inner.left, ast.Constant):
-                        off = inner.left.value
+                    off = lit(inner.left)
                     prod = inner.right
-                    if isinstance(prod, ast.BinOp) and isinstance(prod.op, ast.Mult) and isinstance(prod.left, ast.Constant):
+                    if isinstance(prod, ast.BinOp) and isinstance(prod.op, ast.Mult) and lit(prod.left) is not None:
                         if isinstance(prod.right, ast.Name) and prod.right.id == "seed":
-                            mult = prod.left.value
+                            mult = lit(prod.left)
             elif name.endswith("_prime") and isinstance(node.value, ast.Constant):
                 prime = node.value.value
     # the loop must be xor, multiply, mask in this order
